@@ -14,5 +14,5 @@ CONSTANTS
   Scales = {64, 65536}
   NodeProfiles = {0, 1, 2}
 SPECIFICATION Spec
-INVARIANTS Emit TilesInv PrefixClosed StrictLaw HierLaw OctLaw Budget
+INVARIANTS Emit TilesInv PrefixClosed StrictLaw HierLaw OctLaw RecLaw Budget
 CHECK_DEADLOCK FALSE
